@@ -519,6 +519,42 @@ def fetch_local_pack(job, u, spath, rpath, rec):
         _set_want_refs(rpath, job, u)
 
 
+def fetch_mofapi(job, u, spath, rpath, rec):
+    """BaseRepo.find_missing_objects / fetch_pack_data driven through the public API with a
+    get_tagged callback built the way UploadPackHandler.get_tagged builds it (include-tag is
+    effective here; behind a plain Repo the handler's own get_tagged returns {})"""
+    from dulwich.repo import Repo
+    wants = _want_shas(job, u)
+    s, r = Repo(spath), Repo(rpath)
+    log = []
+    ids = []
+    try:
+        tagged = {}
+        if job.get("caps", {}).get("inctag"):
+            for name, sha in s.get_refs().items():
+                peeled = s.get_peeled(name)
+                if peeled is not None and peeled != sha:
+                    tagged[peeled] = sha
+        dw = lambda refs, depth=None: list(wants)
+        mof = s.find_missing_objects(dw, _RecWalker(r.get_graph_walker(), log), None, get_tagged=lambda: dict(tagged))
+        ids = [sha for sha, _hint in mof]
+        count, it = s.fetch_pack_data(dw, r.get_graph_walker(), None, get_tagged=lambda: dict(tagged))
+        r.object_store.add_pack_data(count, it)
+        rec["ok"] = 1
+    except Exception as e:
+        rec["err"] = repr(e)[:300]
+    finally:
+        s.close()
+        r.close()
+    rec["cli"] = _dialogue(u, log, "cli") or []
+    rec["hk"] = 1
+    rec["haves"] = [e[2] for e in rec["cli"] if e[0] == "r" and e[1] == "ACK"]
+    known, unknown = u.names(i.decode() for i in ids)
+    rec["cap"], rec["sent"], rec["sunk"] = 1, _objs(known), len(unknown) + (len(ids) - len(set(ids)))
+    if rec["ok"]:
+        _set_want_refs(rpath, job, u)
+
+
 # ---- fetch, dulwich client <- dulwich TCP server
 def fetch_tcp(job, u, spath, rpath, rec):
     from dulwich.client import TCPGitClient
@@ -836,6 +872,7 @@ def push_gitclient(job, u, spath, rpath, rec):
 TRANSPORTS = {
     ("fetch", "local"): fetch_local,
     ("fetch", "localpack"): fetch_local_pack,
+    ("fetch", "mofapi"): fetch_mofapi,
     ("fetch", "tcp"): fetch_tcp,
     ("fetch", "gitserver"): fetch_gitserver,
     ("fetch", "gitclient"): fetch_gitclient,
